@@ -6,6 +6,7 @@ import "math/rand/v2"
 // client must not carry them, and a decoder in broker role may reject them).
 var NoPublishSubIDs = true
 
+//go:norace
 func rstr(r *rand.Rand, max int) string {
 	n := r.IntN(max + 1)
 	const al = "abcdefghijklmnopqrstuvwxyz0123456789/_-äé€"
@@ -17,6 +18,7 @@ func rstr(r *rand.Rand, max int) string {
 	return string(out)
 }
 
+//go:norace
 func rtopic(r *rand.Rand) string {
 	s := rstr(r, 12)
 	if s == "" {
@@ -25,6 +27,7 @@ func rtopic(r *rand.Rand) string {
 	return s
 }
 
+//go:norace
 func rbytes(r *rand.Rand, max int) []byte {
 	n := r.IntN(max + 1)
 	b := make([]byte, n)
@@ -34,6 +37,7 @@ func rbytes(r *rand.Rand, max int) []byte {
 	return b
 }
 
+//go:norace
 func maybe[T any](r *rand.Rand, p float64, f func() T) *T {
 	if r.Float64() < p {
 		v := f()
@@ -42,6 +46,7 @@ func maybe[T any](r *rand.Rand, p float64, f func() T) *T {
 	return nil
 }
 
+//go:norace
 func ruser(r *rand.Rand) [][2]string {
 	var u [][2]string
 	for i := 0; i < r.IntN(3); i++ {
@@ -51,6 +56,8 @@ func ruser(r *rand.Rand) [][2]string {
 }
 
 // RandomPacket returns a structurally valid packet of the given type for protocol level ver.
+//
+//go:norace
 func RandomPacket(r *rand.Rand, typ byte, ver byte) *Packet {
 	v5 := ver == V5
 	p := &Packet{Type: typ}
